@@ -48,6 +48,10 @@ CHECKS = {
    technique="symbolic execution (z3-backed bytes) of cpu.disassemble with real hooks; inductive invariant checked at every path end (pending prefix instruction None, internals unchanged, also on exception paths) plus a symbolic two-call differential twin with SMT equality of the resulting instruction",
    text="Bounded model checking of the inductive step: on every explored path of a decode call (short inputs, inputs behind each prefix byte, inputs focused on sampled specs) the decoder's history carriers are proven reset whatever the outcome; the twin harness explores d(b1); d(b2) against a fresh d(b2) for symbolic b2 and a pool of concrete b1 (prefix-only, truncated, undecodable, exception-raising) and proves the two instructions equal on every path.",
    note="trusted: z3, symx proxies, the claim that disassembler.__i and cpu internals are the only history carriers of decoding (other mutable state, e.g. sign flags on shared registers, is C10's subject)"),
+ "C16": dict(level="model_checking", engine="E2", design="DESIGN.md section 4 C16",
+   technique="symbolic execution (z3-backed bytes, z3 model of the struct module) of StructCore.unpack for definitions built by the real StructDefine parser; per path SMT proof that every field value is the reference byte composition at the C-ABI offset; C-layout calculator (validated against gcc) for size/alignment/offsets; symbolic LEB128 encode/decode kernels",
+   text="Bounded model checking per definition: all input byte strings of the definition's size; every explored path proves each unpacked field (scalars, arrays, nested structures, bitfields, counted/bound/terminated/LEB128 fields) equal to the reference term; layouts are compared with an independent C ABI calculator; LEB128 read/write round trips are proven for all values < 2^35. pack() is exercised on two concrete witnesses of every unpack path (b''.join is C code).",
+   note="trusted: z3, symx proxies, vf/symstruct.py (struct model, validated by concrete re-execution of path witnesses with the real struct module), the C layout calculator (checked against gcc in selfcheck); known findings: arrays of nested structures, misaligned nested structures in packed parents, pointer-sized members of nested structures at psize=32, byte-counted arrays of wider elements"),
 }
 
 NA_REASON = "check not built yet (construction in progress)"
